@@ -59,6 +59,7 @@ package parse
 //@   requires p.scanner != nil && p.fset != nil && scanLeft >= 0
 //@   assigns p.pos, p.tok, p.text, p.failed, p.errors, elems(p.errors), scanLeft, scanEnd, identsRead
 //@   at call (*parse.metaParser).parseIdent set identsRead = identsRead + ite(result0 != nil, 1, 0)
+//@   at call (*parse.metaParser).errf assert [C19] only-a-token-that-is-out-of-place-is-reported-at-the-current-token: arg1 == "unexpected %q, expected \"var\"" || arg1 == "unexpected %q, expected \";\" or a newline"
 //@   ensures [C02,C13] one-type-for-the-names-written-before-it: d != nil ==> identsRead - old(identsRead) == len(d.Names) + 1 && d.Type != nil
 //@   ensures scanLeft >= 0
 //@   ensures [C08] consumes-a-token: old(scanLeft) > 0 ==> scanLeft < old(scanLeft)
